@@ -65,8 +65,13 @@ static void caseC04(uint64_t idx, vh::Rng& g)
 	}
 	else
 	{
-		al = gen::randAlpha(g, 3); int k = static_cast<int>(g.below(6));
-		if (k < 2) { kind = "G2-random"; a = gen::randTA(g, al, gen::numbering(g, g.range(1, 7), 0), g.range(1, 14)); }
+		al = gen::randAlpha(g, 3); int k = static_cast<int>(g.below(7));
+		if (k == 6)
+		{	// larger automata: the LTS they are translated to has enough (label, state) pairs for several counter rows
+			kind = "G2-large"; al = gen::randAlpha(g, 2, 3, 5);
+			a = gen::randProductiveTA(g, al, gen::numbering(g, g.range(8, static_cast<int>(R->param("bigS", 16))), 0), g.range(15, 50), 3);
+		}
+		else if (k < 2) { kind = "G2-random"; a = gen::randTA(g, al, gen::numbering(g, g.range(1, 7), 0), g.range(1, 14)); }
 		else if (k < 4) { kind = "G2-productive"; a = gen::randProductiveTA(g, al, gen::numbering(g, g.range(1, 7), 0), g.range(1, 14), 2); }
 		else
 		{
@@ -137,6 +142,9 @@ static void caseC04(uint64_t idx, vh::Rng& g)
 typedef std::tuple<int, int, int> Edge;
 static rm::Rel naiveLts(int n, const std::vector<Edge>& E, rm::Rel Rr)
 {
+	// greatest fixpoint by deleting pairs; edges indexed by source state
+	std::vector<std::vector<std::pair<int, int>>> out(n);
+	for (auto& e : E) out[std::get<0>(e)].push_back(std::make_pair(std::get<1>(e), std::get<2>(e)));
 	bool ch = true;
 	while (ch)
 	{
@@ -144,10 +152,10 @@ static rm::Rel naiveLts(int n, const std::vector<Edge>& E, rm::Rel Rr)
 		for (int q = 0; q < n; ++q) for (int r = 0; r < n; ++r) if (Rr[q][r])
 		{
 			bool ok = true;
-			for (auto& e : E) if (std::get<0>(e) == q)
+			for (auto& e : out[q])
 			{
 				bool ans = false;
-				for (auto& f : E) if (std::get<0>(f) == r && std::get<1>(f) == std::get<1>(e) && Rr[std::get<2>(e)][std::get<2>(f)]) { ans = true; break; }
+				for (auto& f : out[r]) if (f.first == e.first && Rr[e.second][f.second]) { ans = true; break; }
 				if (!ans) { ok = false; break; }
 			}
 			if (!ok) { Rr[q][r] = false; ch = true; }
@@ -165,6 +173,11 @@ static void caseC16(uint64_t, vh::Rng& g)
 {
 	int maxN = static_cast<int>(R->param("N", 9));
 	int n = g.range(1, maxN), L = g.range(1, 4), m = g.range(0, 3 * n);
+	if (g.chance(1, 6))
+	{	// large systems: the engine's counter tables span several rows only from 32 (label, state) pairs on,
+		// and blocks are split repeatedly in the main refinement loop
+		n = g.range(10, static_cast<int>(R->param("bigN", 40))); L = g.range(2, 6); m = g.range(n, 4 * n); R->count("large-lts");
+	}
 	std::vector<int> labels; for (int i = 0; i < L; ++i) labels.push_back(g.chance(1, 5) ? i * 2 + 1 : i);   // unused label numbers in between
 	std::vector<Edge> E;
 	int shape = static_cast<int>(g.below(4));
